@@ -112,8 +112,40 @@ func setupProp(prop string) (err error) {
 			}
 			nets = append(nets, netInfo{n.Name, n})
 		}
+		for _, n := range nets {
+			netSnapshot = append(netSnapshot, snapNet(n.Params))
+		}
 	})
 	return err
+}
+
+// The network parameters are global, shared data that the library reads (and hands out slices of).  Their
+// identifying fields are copied when the process starts and compared after every case: a library call that
+// writes into them corrupts every later use, including the reference models of this harness, which read the
+// same globals - so without this comparison such a write could go unnoticed.
+type netSnap struct {
+	name, cash, slp string
+	pkh, sh, wif    byte
+	hdPriv, hdPub   [4]byte
+	magic           wire.BitcoinNet
+}
+
+var netSnapshot []netSnap
+
+func snapNet(p *chaincfg.Params) netSnap {
+	return netSnap{p.Name, p.CashAddressPrefix, p.SlpAddressPrefix, p.LegacyPubKeyHashAddrID, p.LegacyScriptHashAddrID, p.PrivateKeyID,
+		p.HDPrivateKeyID, p.HDPublicKeyID, p.Net}
+}
+
+func netsIntact() error {
+	for i, s := range netSnapshot {
+		if i < len(nets) {
+			if now := snapNet(nets[i].Params); now != s {
+				return fmt.Errorf("the library modified the global parameters of network %s: they were %+v and are now %+v (by this case or an earlier one of this process)", s.name, s, now)
+			}
+		}
+	}
+	return nil
 }
 
 func genNet(t *rapid.T) int { return rapid.IntRange(0, len(nets)-1).Draw(t, "net") }
